@@ -54,6 +54,9 @@ def run(an, cfg, ub="finite", seed="int"):
 
 
 def check(rep, an, tier):
+    # the bounds every clause below speaks of are the REGISTERED ones: registration keeps / replaces exactly what it is given
+    from .C14 import register_bounds_rule
+    register_bounds_rule(rep, an)
     entry = "lsq_linear_decomposition"
     d0 = {n: AXES[n][0][0] for n in AXES}
     F.mixed_upper_bounds(rep, run(an, d0, ub="mixed"), entry)
@@ -134,6 +137,29 @@ def check(rep, an, tier):
                               construct=ev.text()[:80], entry=entry, config=res.config,
                               msg=f"the weight operand is homogeneous of degree {dW} in W: the weights were normalised per sample, which changes "
                                   f"the relative weighting of samples in the X sub-problem that couples them")
+        # both alternating steps (and the reported loss) minimise the SAME weighted error: the exponent with which the weights enter,
+        # relative to the residual's, agrees between the X and the P objectives (‖W∘R‖ ≡ Σ W²R²; Σ W·R² is a different error)
+        if cfg.get("W", "mat"):
+            ratios = {}
+            for kind_, probs_ in (("X", xprobs), ("P", pprobs)):
+                for po, obj, cons in probs_:
+                    sense, expr = R.objective_nf(obj)
+                    we = weight_exponent(expr)
+                    if we is not None and we[1]:
+                        ratios.setdefault(round(we[0] / we[1], 6), []).append((kind_, po, obj))
+            if len(ratios) > 1:
+                # the odd one out: the ratio used by fewer problems
+                odd = min(ratios.items(), key=lambda kv: len(kv[1]))
+                for kind_, po, obj in odd[1][:1]:
+                    node = obj.tag("node")
+                    rep.violated("R-QTY", "X step and P step minimise the same weighted error", where=F.where_po(po),
+                                 construct=norm_text(node)[:80] if node is not None else f"{kind_} objective", entry=entry, config=res.config,
+                                 msg=f"in the {kind_} objective the weights enter with exponent {odd[0]:g} relative to the residual, in the other "
+                                     f"sub-problem with {[k for k in ratios if k != odd[0]][0]:g}: the alternation minimises two different errors, so "
+                                     f"a step can increase the other step's (and the reported) error and the last factor is not optimal for it")
+            elif ratios:
+                rep.holds("R-QTY", "X step and P step minimise the same weighted error", where=res.fn.loc(), construct="weight exponent of both objectives",
+                          entry=entry, config=res.config)
         # ---- alternation order inside the loop
         alternation(rep, res, entry, xprobs, pprobs, xvars, pvars, cfg)
         # ---- returned fit
@@ -230,6 +256,43 @@ def alternation(rep, res, entry, xprobs, pprobs, xvars, pvars, cfg):
                       config=res.config,
                       msg="the full-size P problem is built from a loop Parameter (the last loop iterate) instead of the refitted, "
                           "returned X: the returned P is not optimal for the returned X" if not ok else "")
+
+
+def weight_exponent(expr, depth=0):
+    """(exponent of the weights, exponent of the residual) of a cvx objective expression, or None when not understood"""
+    if expr is None or depth > 30:
+        return None
+    a = expr.tag("atom")
+    if not expr.tag("cvx"):
+        d_ = expr.flat().data
+        # (a constant that depends on W only through an earlier SOLUTION — the other factor — is not the weight operand)
+        return (1, 0) if ("W" in {o.split("|")[0] for o in d_} and not any(o.startswith("sol#") for o in d_)) else (0, 0)
+    if a is None:
+        return (0, 1)                       # a leaf (variable / parameter): the residual's own degree
+    name, ops = a[0], a[1]
+    if name in ("sum", "neg", "T", "reshape", "index", "vec", "hstack", "vstack", "diff", "abs") or name.startswith("norm"):
+        return weight_exponent(ops[0], depth + 1)
+    if name in ("sum_squares", "square", "quad_over_lin"):
+        r = weight_exponent(ops[0], depth + 1)
+        return None if r is None else (2 * r[0], 2 * r[1])
+    if name in ("pow", "power"):
+        r = weight_exponent(ops[0], depth + 1)
+        p_ = ops[1] if len(ops) > 1 else None
+        if r is None or p_ is None or not p_.known or not isinstance(p_.const, (int, float)):
+            return None
+        return (p_.const * r[0], p_.const * r[1])
+    if name in ("multiply", "mul", "matmul", "div"):
+        rs = [weight_exponent(o, depth + 1) for o in ops]
+        if any(r is None for r in rs):
+            return None
+        return (sum(r[0] for r in rs), max(r[1] for r in rs))
+    if name in ("add", "sub"):
+        rs = [weight_exponent(o, depth + 1) for o in ops]
+        rs = [r for r in rs if r is not None]
+        if not rs:
+            return None
+        return (max(r[0] for r in rs), max(r[1] for r in rs))
+    return None
 
 
 def seeds(rep, res, entry, cfg):
